@@ -3,6 +3,8 @@
 package main
 
 import (
+	"fmt"
+	"os"
 	"flag"
 	"math/rand"
 
@@ -138,13 +140,59 @@ func c08(args []string) error {
 				break // could not move (reported through the views seen later)
 			}
 		}
+		seen := map[[2]int]hotstuff.TimeoutMsg{} // diagnosis (HSVERIF_LOG): the accepted timeout messages by (sender, view)
+		postMortem := func(view int, pre, post [][2]int) {
+			if os.Getenv("HSVERIF_LOG") == "" {
+				return
+			}
+			cnt := func(b [][2]int) int {
+				k := 0
+				for _, e := range b {
+					if e[1] == view {
+						k++
+					}
+				}
+				return k
+			}
+			if cnt(pre)+1 < q || cnt(post) != 0 || int(r.VS.View()) != view {
+				return
+			}
+			fmt.Fprintf(os.Stderr, "[postmortem] quorum for view %d consumed without leaving the view (scheme %s, n=%d, R=%d)\n", view, scheme, n, R)
+			var sigs []hotstuff.QuorumSignature
+			for k, tm := range seen {
+				if k[1] != view {
+					continue
+				}
+				e1 := nodes[0].Auth.Verify(tm.ViewSignature, hotstuff.View(view).ToBytes())
+				e2 := r.Auth.Verify(tm.ViewSignature, hotstuff.View(view).ToBytes())
+				fmt.Fprintf(os.Stderr, "[postmortem]   from %d: participants %v sig %x verify@1=%v verify@R=%v\n", k[0], hx.IDs(tm.ViewSignature.Participants()), tm.ViewSignature.ToBytes(), e1, e2)
+				sigs = append(sigs, tm.ViewSignature)
+			}
+			if len(sigs) >= 2 {
+				c, err := nodes[0].Auth.Combine(sigs...)
+				if err != nil {
+					fmt.Fprintf(os.Stderr, "[postmortem]   combine: %v\n", err)
+					return
+				}
+				for _, x := range nodes {
+					fmt.Fprintf(os.Stderr, "[postmortem]   combined %v verify@%d = %v\n", hx.IDs(c.Participants()), x.ID, x.Auth.Verify(c, hotstuff.View(view).ToBytes()))
+				}
+			}
+		}
 		for m := 0; m < *length; m++ {
 			cur := int(r.VS.View())
 			if rng.Intn(8) == 0 { // R's own timer
 				pre := proj()
 				vc0 := len(r.ViewChanges)
 				r.FireTimeout()
-				collect(obj{"op": "tmo", "from": R, "view": cur, "ok": true, "msgok": true, "local": true, "pre": pre}, vc0)
+				for _, om := range r.Out {
+					if tm, ok := om.Msg.(hotstuff.TimeoutMsg); ok {
+						seen[[2]int{R, int(tm.View)}] = tm
+					}
+				}
+				line := obj{"op": "tmo", "from": R, "view": cur, "ok": true, "msgok": true, "local": true, "pre": pre}
+				collect(line, vc0)
+				postMortem(cur, pre["bag"].([][2]int), line["post"].(obj)["bag"].([][2]int))
 				continue
 			}
 			s := 1 + rng.Intn(n)
@@ -191,7 +239,14 @@ func c08(args []string) error {
 				}()
 				r.Deliver(tm)
 			}()
-			collect(obj{"op": "tmo", "from": s, "view": v, "ok": kind == "good", "msgok": msgok, "sig": kind, "local": false, "pre": pre, "panic": pan}, vc0)
+			if kind == "good" && msgok {
+				if _, dup := seen[[2]int{s, v}]; !dup {
+					seen[[2]int{s, v}] = tm
+				}
+			}
+			line := obj{"op": "tmo", "from": s, "view": v, "ok": kind == "good", "msgok": msgok, "sig": kind, "local": false, "pre": pre, "panic": pan}
+			collect(line, vc0)
+			postMortem(v, pre["bag"].([][2]int), line["post"].(obj)["bag"].([][2]int))
 		}
 		r.Stop()
 	}
